@@ -4,7 +4,7 @@ From Coq Require Import List ZArith NArith Bool Arith String Lia.
 Import ListNotations.
 From DD Require Import Base.PyStr Base.Value Path.PathModel Diff.Tree Diff.DiffModel Diff.DiffShow
   Delta.DeltaModel Delta.DeltaVerify Delta.DeltaReverse Delta.DeltaReverseDiff
-  Delta.DeltaReverseInplace Delta.DeltaReverseSeq.
+  Delta.DeltaReverseInplace Delta.DeltaReverseTuple Delta.DeltaReverseSeq.
 Local Open Scope string_scope.
 
 Definition K (s : string) : atom := AStr (s2p s).
@@ -198,3 +198,35 @@ Example ex4_shape :
   map (fun c => (vc_path c, vc_new_path c)) (d_val ex4_d) = [([PKey (AInt 3)], Some [PKey (AInt 4)])] /\
   ex_apply ex4_d ex4_t1 = (ex4_t2, 0) /\ ex_sub ex4_d ex4_t2 = Some (ex4_t1, 0).
 Proof. vm_compute. repeat split. Qed.
+
+(* a flat tuple: (1, 2, 'x') -> (1, 5, 'y'); inversion by the flat-tuple theorem *)
+Definition ex5_xs : list value := [I 1; I 2; VAtom (K "x")].
+Definition ex5_t2 : value := VTuple [I 1; I 5; VAtom (K "y")].
+Definition ex5_r := run_diff hatom_simple (fun _ _ => []) ex_ops no_paths no_paths ex_cfg (VTuple ex5_xs) ex5_t2.
+Definition ex5_d : delta := to_delta ex_conv true false ex_ops (VTuple ex5_xs) ex5_t2 (fst ex5_r) (snd ex5_r).
+
+Example ex5_inplace : inplace ex5_d.
+Proof.
+  constructor; try reflexivity.
+  - vm_compute. repeat constructor; eexists; reflexivity.
+  - vm_compute. constructor.
+Qed.
+
+Example ex5_guards :
+  Forall (fun w => flat_path (wpath w)) (writes ex5_d) /\
+  pairwise_div (map wpath (writes ex5_d)) = true /\
+  (forall w, In w (writes ex5_d) ->
+     resolve (VTuple ex5_xs) (wpath w) = Some (snd (fst w)) /\ wf (snd w) = true) /\
+  ex_apply ex5_d (VTuple ex5_xs) = (ex5_t2, 0) /\ List.length (writes ex5_d) = 2.
+Proof.
+  split; [vm_compute; repeat constructor; eexists; reflexivity|].
+  split; [vm_compute; reflexivity|]. split; [|split; vm_compute; reflexivity].
+  intros w Hw. vm_compute in Hw.
+  repeat (destruct Hw as [<-|Hw]; [vm_compute; split; reflexivity|]). contradiction.
+Qed.
+
+Example ex5_sub_inverts : ex_sub ex5_d ex5_t2 = Some (VTuple ex5_xs, 0).
+Proof.
+  destruct ex5_guards as (F & P & H & A & _).
+  exact (flat_tuple_sub_inverts ex_conv ex_ro ex_ao eq_refl ex5_d ex5_xs ex5_t2 ex5_inplace eq_refl F P H A).
+Qed.
